@@ -12,3 +12,4 @@ LEVEL_NOTE = "Trusts the pyvc encoding, z3/cvc5, A-CSV and A-STR (blank repetiti
 TECHNIQUE = "contract-based deductive verification (VCs from the ast of the real functions, z3/cvc5) + bounded write/read-back sweep"
 UNITS = [VIO.unit_writer_init(), VIO.unit_writer_write_row(), VIO.unit_padded_fixed_row(), VIO.unit_validate_row(), RW.unit_fixed_row_writer_write_row(), RW.unit_delimited_row_writer_write_row(), VIO.unit_writer_sweep(), RD.unit_as_delimited_keywords(), RD.unit_audit_csv()]
 UNITS += [VIO.unit_writer_write_rows(), VIO.unit_writer_close()]
+UNITS += [RW.unit_fixed_row_writer_init(), RW.unit_delimited_row_writer_init(), RW.unit_row_writer_close(), RW.unit_row_writer_write_rows()]
